@@ -23,6 +23,9 @@ def _once(rep, seen, key, ok, rule, cons, why, **kw):
 
 
 def check(model, rep):
+    # hidden state Python keeps outside the objects (not modelled by the evaluator): reported before anything else is evaluated
+    from checks.solver_common import package_lints as _package_lints
+    _package_lints(model, rep, 'C11.hidden-state', ('/solver.py', '/powertrain.py'))
     from checks.solver_common import absorb_arith, TIME_ARITH, EULER_ARITH, KIN_ARITH, TORQUE_ARITH
     absorb_arith(model, rep, 'C11.dep.arith', TIME_ARITH, solver_log=True)
     # exactly round(T/dt) instants: the stepping loop may only end early through the stop condition (C16's placement rules)
